@@ -17,7 +17,7 @@ static DROPS: [AtomicU32; MAXV] = [const { AtomicU32::new(0) }; MAXV];
 pub struct Tracked { v: u32 }
 impl Drop for Tracked { fn drop(&mut self) { if (self.v as usize) < MAXV { DROPS[self.v as usize].fetch_add(1, SeqCst); } } }
 
-fn filter(tag: &str) -> bool { tag.starts_with("oa.") }
+fn filter(tag: &str) -> bool { tag.starts_with("oa.") || tag.starts_with("pa.") }
 
 trait Alloc: BoundedOgreAllocator<Tracked> + Send + Sync + std::fmt::Debug + 'static {}
 impl<T: BoundedOgreAllocator<Tracked> + Send + Sync + std::fmt::Debug + 'static> Alloc for T {}
